@@ -637,7 +637,7 @@ pub fn run(tier: Tier, seed: u64) -> i32 {
         } else {
             let mut exprs = vec![];
             // incl. values whose hex / binary spelling starts with a letter that is also a radix marker
-            for v in [0i64, 7, 8, 10, 11, 0xb0, 0xB4, 0xBEEF, 0xbb, 0xB, 255, 0o777, 0x7fff_ffff_ffff_ffff, 1 << 32, 0x0bad_f00d_dead_beef] {
+            for v in [0i64, 2, 3, 7, 8, 10, 11, 16, 17, 0x101, 101, 5, 0xb0, 0xB4, 0xBEEF, 0xbb, 0xB, 255, 0o777, 0x7fff_ffff_ffff_ffff, 1 << 32, 0x0bad_f00d_dead_beef] {
                 for r in RADIXES {
                     exprs.push(Expr::Lit(v, r));
                     exprs.push(bin(BinOp::Add, Expr::Lit(v, r), lit(0)));
